@@ -21,11 +21,18 @@ import SlipVerif.Lemmas.Wire6
       keep output readable →
         readAll (printFlat cfg x) = x  ∧  readAll (printPretty cfg margin x) = x   (equal, same type)
 
-  What is proved is `print_read_roundtrip_partial` (flat text) and `pretty_read_roundtrip` (pretty
-  text, every margin) for the whole float-free universe, every readable configuration, no size or
-  depth bound, together with `pretty_only_whitespace` (the pretty text is the flat token sequence
-  with blank-only separators). Missing: floats (Lean's `Float` is opaque to the kernel; they are
-  covered by the witness search on the implementation only).
+  What is proved is `print_read_roundtrip` (flat text) and `pretty_read_roundtrip` (pretty text,
+  every margin) for the whole universe, every readable configuration, no size or depth bound,
+  together with `pretty_only_whitespace` (the pretty text is the flat token sequence with blank-only
+  separators). Floats are in the universe at token level: a finite float of each format is the
+  decimal (sign, shortest digits, exponent) that `strconv.AppendFloat(…, 'e', -1, bits)` /
+  `big.Float.Append` write for it; `float_roundtrip` proves that the printed token (exponent marker
+  `s` / `d` / `L`, signed two-digit exponent) reads back to the same format, sign, digits and
+  exponent under the standard `*read-default-float-format*`. What the model cannot state is the
+  shortest-round-trip contract between a binary value and that decimal (Lean's `Float` is opaque to
+  the kernel): it is the explicit hypothesis of `float_codec_roundtrip`, and the harness checks that
+  hypothesis on the implementation for boundary and random floats of each format under every
+  `*read-default-float-format*`.
 -/
 namespace SlipVerif.Theorems.C03
 open SlipVerif.Printer
@@ -73,11 +80,27 @@ theorem int_readbase_exceptions (b : Nat) (hb : 2 ≤ b) (hb36 : b ≤ 36) (n : 
 example : intText 2 524288 = "10000000000000000000".toList ∧ typeOf (.int 524288) = .fixnum := by decide
 example : intText 30 29 = ['t'] ∧ intText 24 13701 = ['n', 'i', 'l'] := by decide
 
+/-- ratio_readbase_roundtrip: without `*print-radix*` a ratio in lowest terms printed in any base 2..36
+    reads back, with `*read-base*` bound to the print base, as the same ratio (a token with a slash never
+    spells `t` or `nil`, so there is no exception as for integers). -/
+theorem ratio_readbase_roundtrip (hT : TablesOK) (b : Nat) (hb : 2 ≤ b) (hb36 : b ≤ 36) (num : Int) (den : Nat)
+    (hden : 2 ≤ den) (hco : Nat.gcd num.natAbs den = 1)
+    (rest : List Char) (hrest : termOrEnd rest = true) (fuel : Nat) :
+    ∃ y, read1 b (fuel + 1) (printRatio { base := b, radix := false } num den ++ rest) = .ok (y, rest) ∧
+      y = .ratio num den ∧ typeOf y = .ratio :=
+  ⟨_, read1_ratio_readbase hT b hb hb36 num den hden hco rest hrest fuel, rfl, rfl⟩
+
+example : printRatio { base := 36, radix := false } (-71) 1295 = "-1z/zz".toList := by decide
+
 /-- equal objects have the same type: the reader's result for a printed object has the type of the
     original, integers included (fixnum / bignum by value). -/
 theorem equal_same_type (x y : Obj) (h : objEq x y = true) : typeOf x = typeOf y := by
   cases x <;> cases y <;> simp [objEq] at h <;> simp [typeOf]
   · rw [h]
+  · rename_i f1 _ _ _ f2 _ _ _
+    obtain ⟨⟨⟨hf, _⟩, _⟩, _⟩ := h
+    subst hf
+    cases f1 <;> rfl
 
 /-- ratio round trip: a ratio in lowest terms, with or without the radix prefix. -/
 theorem ratio_roundtrip (hT : TablesOK) (cfg : PCfg) (hb : 2 ≤ cfg.base) (hb36 : cfg.base ≤ 36)
@@ -152,11 +175,51 @@ theorem structure_roundtrip (hT : TablesOK) (cfg : PCfg) (hC : CfgOK cfg) (x : O
       readElems 10 fuel (printTail cfg x ++ rest) acc = .ok (acc.reverse ++ tailElems (recase cfg.case x), rest)) :=
   ⟨(struct_roundtrip hT cfg hC x).1 hwf, (struct_roundtrip hT cfg hC x).2 hwf⟩
 
-/-- print_read_roundtrip_partial: for every float-free object built from readable data (`WF`) and
-    every configuration documented to keep output readable (`CfgOK`: base 2..36 with radix or base
-    10, any case, readably, array), reading the flat printed text gives exactly one object, equal to
-    the original (symbols up to case, as slip's equality) and of the same kind. -/
-theorem print_read_roundtrip_partial (hT : TablesOK) (cfg : PCfg) (hC : CfgOK cfg) (x : Obj) (hwf : WF x) :
+/-- float_roundtrip: a finite float of any format (single, double, long), given by the decimal the
+    shortest formatting writes for it (`FloatWF`: digits without leading / trailing zero, zero has
+    none), printed readably — whatever `*print-base*`, `*print-radix*`, `*print-case*` are — reads
+    back as the same format, sign, digits and exponent. -/
+theorem float_roundtrip (hT : TablesOK) (cfg : PCfg) (hr : cfg.readably = true) (f : FFmt) (neg : Bool)
+    (ds : List Nat) (e : Int) (hwf : FloatWF ds e) (rest : List Char) (hrest : termOrEnd rest = true) (fuel : Nat) :
+    read1 10 (fuel + 1) (printFloat cfg f neg ds e ++ rest) = .ok (.flt f neg ds e, rest) :=
+  read1_printFloat hT cfg hr f neg ds e hwf rest hrest fuel
+
+example : printFloat { base := 16, radix := true } .single true [1, 5] 0 = "-1.5s+00".toList ∧
+    printFloat {} .double false [1] 21 = "1d+21".toList ∧ printFloat {} .long false [] 0 = "0L+00".toList ∧
+    printFloat { readably := false } .double false [1, 2, 5] 2 = "125".toList ∧
+    printFloat { readably := false } .double false [1, 2, 5] (-5) = "1.25e-05".toList := by decide
+example : FloatWF [1, 5] 0 ∧ FloatWF [] 0 := by
+  refine ⟨⟨by decide, by decide, by decide, by decide⟩, ⟨by decide, by decide, by decide, by decide⟩⟩
+
+/-- float_codec_roundtrip: the round trip on binary values under the shortest-round-trip contract.
+    `B` is the set of binary values of a format (IEEE single / double, `big.Float`), `toDec` the
+    decimal the implementation's shortest formatting gives, `ofDec` its parser. HYPOTHESES (checked on
+    the implementation by the harness, not provable here): the formatting gives a canonical decimal
+    and parsing is a left inverse of formatting. Then reading the printed token and parsing its decimal
+    gives back the binary value. -/
+theorem float_codec_roundtrip {B : Type} (toDec : B → Bool × List Nat × Int) (ofDec : Bool × List Nat × Int → B)
+    (hcanon : ∀ b, FloatWF (toDec b).2.1 (toDec b).2.2) (hinv : ∀ b, ofDec (toDec b) = b)
+    (hT : TablesOK) (cfg : PCfg) (hr : cfg.readably = true) (f : FFmt) (b : B)
+    (rest : List Char) (hrest : termOrEnd rest = true) (fuel : Nat) :
+    ∃ neg ds e, read1 10 (fuel + 1) (printFloat cfg f (toDec b).1 (toDec b).2.1 (toDec b).2.2 ++ rest) =
+        .ok (.flt f neg ds e, rest) ∧ ofDec (neg, ds, e) = b :=
+  ⟨(toDec b).1, (toDec b).2.1, (toDec b).2.2,
+    read1_printFloat hT cfg hr f _ _ _ (hcanon b) rest hrest fuel, hinv b⟩
+
+-- the hypotheses are satisfiable: decimals themselves, with the identity codec restricted to canonical ones
+example : ∃ (toDec : Unit → Bool × List Nat × Int) (ofDec : Bool × List Nat × Int → Unit),
+    (∀ b, FloatWF (toDec b).2.1 (toDec b).2.2) ∧ (∀ b, ofDec (toDec b) = b) :=
+  ⟨fun _ => (false, [1, 5], 0), fun _ => (), fun _ => by
+    show FloatWF [1, 5] 0
+    exact ⟨by decide, by decide, by decide, by decide⟩, fun _ => rfl⟩
+
+/-- print_read_roundtrip: for every object built from readable data (`WF`: integers of any size,
+    ratios, finite floats of each format, strings, characters, symbols and keywords, lists, dotted
+    lists, vectors, multi-dimensional arrays, any nesting) and every configuration documented to keep
+    output readable (`CfgOK`: base 2..36 with radix or base 10, any case, readably, array), reading
+    the flat printed text gives exactly one object, equal to the original (symbols up to case, as
+    slip's equality) and of the same type. -/
+theorem print_read_roundtrip (hT : TablesOK) (cfg : PCfg) (hC : CfgOK cfg) (x : Obj) (hwf : WF x) :
     ∃ y, readAll 10 (printFlat cfg x) = .ok y ∧ objEq x y = true := by
   refine ⟨recase cfg.case x, ?_, objEq_recase cfg.case x⟩
   have hlen := (size_le_length hT cfg hC x).1 hwf
@@ -166,12 +229,29 @@ theorem print_read_roundtrip_partial (hT : TablesOK) (cfg : PCfg) (hC : CfgOK cf
   rw [h]
   rfl
 
+/-- … and the object read back has the same `type-of` (fixnum / bignum by value, the float format) -/
+theorem print_read_same_type (hT : TablesOK) (cfg : PCfg) (hC : CfgOK cfg) (x : Obj) (hwf : WF x) :
+    ∃ y, readAll 10 (printFlat cfg x) = .ok y ∧ objEq x y = true ∧ typeOf y = typeOf x := by
+  obtain ⟨y, h1, h2⟩ := print_read_roundtrip hT cfg hC x hwf
+  exact ⟨y, h1, h2, (equal_same_type x y h2).symm⟩
+
+/-- the configuration matters only through `*print-case*`: two readable configurations (any two
+    bases with radix, …) print texts that read back to objects equal to each other -/
+theorem print_read_config_independent (hT : TablesOK) (c1 c2 : PCfg) (h1 : CfgOK c1) (h2 : CfgOK c2) (x : Obj) (hwf : WF x) :
+    ∃ y1 y2, readAll 10 (printFlat c1 x) = .ok y1 ∧ readAll 10 (printFlat c2 x) = .ok y2 ∧
+      objEq x y1 = true ∧ objEq x y2 = true ∧ typeOf y1 = typeOf y2 := by
+  obtain ⟨y1, r1, e1, t1⟩ := print_read_same_type hT c1 h1 x hwf
+  obtain ⟨y2, r2, e2, t2⟩ := print_read_same_type hT c2 h2 x hwf
+  exact ⟨y1, y2, r1, r2, e1, e2, by rw [t1, t2]⟩
+
 -- a non-trivial instance of the hypotheses
 example : CfgOK { base := 16, radix := true, case := .cap, readably := true, array := true } :=
   ⟨by decide, by decide, Or.inl rfl, rfl, rfl⟩
 example : WF (.cons (.sym "a b".toList) (.cons (.vec (.cons (.int (-255)) .nil)) (.ratio 1 3))) := by
   simp [WF, isList, dotSym]
   decide
+example : WF (.cons (.flt .single true [1, 5] 0) (.flt .long false [] 0)) := by
+  simp [WF, dotSym, FloatWF]
 
 /-- pretty_only_whitespace (token level): for every object, configuration, margin and starting
     column, the pretty text is the same sequence of token texts as the flat text, the pieces between
@@ -205,6 +285,15 @@ theorem pretty_read_roundtrip (hT : TablesOK) (cfg : PCfg) (hC : CfgOK cfg) (mar
     unfold readAll
     rw [h]
     rfl
+
+/-- the layout is immaterial: any two right margins give texts that read back to the same object -/
+theorem pretty_margin_independent (hT : TablesOK) (cfg : PCfg) (hC : CfgOK cfg) (m1 m2 : Nat) (x : Obj) (hwf : WF x) :
+    readAll 10 (printPretty cfg m1 x) = readAll 10 (printPretty cfg m2 x) := by
+  obtain ⟨y1, h1, f1, _⟩ := pretty_read_roundtrip hT cfg hC m1 x hwf
+  obtain ⟨y2, h2, f2, _⟩ := pretty_read_roundtrip hT cfg hC m2 x hwf
+  rw [h1, h2]
+  rw [f1] at f2
+  exact f2
 
 example : printPretty { base := 10 } 14 (.cons (.sym "alpha".toList) (.cons (.sym "beta".toList) (.cons (.sym "gamma".toList) .nil))) =
     "(alpha beta\n       gamma)".toList := by decide
